@@ -128,7 +128,7 @@ class Prop(BaseProp):
                 mn.elems.append(("field", i, nm))
             elif op in ("bullets", "enum"):
                 items = []
-                for _k in range(rng.randint(1, 3)):
+                for _k in range(rng.choice([1, 2, 3, 3, 10, 12, 101])):
                     i = nid()
                     items.append((i, f"item {{T{i}}}"))
                 (obj.bulleted_list if op == "bullets" else obj.enumerated_list)(*[t for _, t in items])
